@@ -277,12 +277,11 @@ fn has_counter<D: ReadDoc>(doc: &D, obj: &ObjId, p: &P) -> bool {
 }
 
 fn text_value(rng: &mut Rng) -> ScalarValue {
-    // no counters inside text (see the text-counter probe)
-    loop {
-        let v = gen::scalar(rng);
-        if !matches!(v, ScalarValue::Counter(_)) {
-            return v;
-        }
+    // any scalar, counters included (a text element can hold a counter and be incremented)
+    if rng.chance(1, 4) {
+        ScalarValue::counter(rng.below(9) as i64)
+    } else {
+        gen::scalar(rng)
     }
 }
 
@@ -461,6 +460,17 @@ fn gen_valid<D: ReadDoc>(doc: &D, rng: &mut Rng, objs: &[(ObjId, ObjType)], cfg:
             let pos = rng.below(len as u64 + 1) as usize;
             match rng.below(16) {
                 0 if len > 0 => Some(Cmd::Delete(obj, P::Seq(rng.below(len as u64) as usize))),
+                9 | 10 if len > 0 => {
+                    // a counter inside the text: increment it, or make one
+                    let mut i = 0usize;
+                    while i < len {
+                        if has_counter(doc, &obj, &P::Seq(i)) {
+                            return Some(Cmd::Inc(obj, P::Seq(i), rng.below(7) as i64 - 2));
+                        }
+                        i += 1;
+                    }
+                    Some(Cmd::Put(obj, P::Seq(rng.below(len as u64) as usize), ScalarValue::counter(rng.below(5) as i64)))
+                }
                 1 if len > 0 => {
                     // replaces one element by a value of any width (multi-character string, empty string, non-string)
                     let v = if rng.chance(2, 3) { ScalarValue::Str(small_str(rng).into()) } else { text_value(rng) };
